@@ -654,6 +654,43 @@ impl Gen {
             self.queue.push_back(json!({"e": "br", "h": h}));
             return;
         }
+        if self.p.w_savepoint > 0 && rng.random_range(0..100) < 7 {
+            // a persistent savepoint taken on top of non-durable commits: it pins a tree that has not been written out
+            // yet when its own (durable) transaction commits
+            let n = self.name(rng);
+            let known_normal = self.known.get(&n).is_none_or(|t| t.0 == "t");
+            if known_normal {
+                let (kt, vt) = match self.known.get(&n) {
+                    Some(t) => (t.1.clone(), t.2.clone()),
+                    None => ("u64".to_string(), "bytes".to_string()),
+                };
+                for _ in 0..rng.random_range(1..3) {
+                    self.queue.push_back(json!({"e": "bw"}));
+                    self.queue.push_back(json!({"e": "dur", "d": "none"}));
+                    self.queue.push_back(json!({"e": "open", "n": n, "kind": "t", "kt": kt, "vt": vt}));
+                    for _ in 0..rng.random_range(2..7) {
+                        let v = self.value(rng, &vt);
+                        self.queue.push_back(json!({"e": "ins", "n": n, "k": self.key(rng, &n), "v": v}));
+                    }
+                    self.queue.push_back(json!({"e": "close", "n": n}));
+                    self.queue.push_back(json!({"e": "commit"}));
+                }
+                self.queue.push_back(json!({"e": "bw"}));
+                self.queue.push_back(json!({"e": "spp"}));
+                self.queue.push_back(json!({"e": "open", "n": n, "kind": "t", "kt": kt, "vt": vt}));
+                for _ in 0..rng.random_range(2..7) {
+                    if rng.random_range(0..3) == 0 {
+                        self.queue.push_back(json!({"e": "rem", "n": n, "k": self.key(rng, &n)}));
+                    } else {
+                        let v = self.value(rng, &vt);
+                        self.queue.push_back(json!({"e": "ins", "n": n, "k": self.key(rng, &n), "v": v}));
+                    }
+                }
+                self.queue.push_back(json!({"e": "close", "n": n}));
+                self.queue.push_back(json!({"e": "commit"}));
+                return;
+            }
+        }
         self.queue.push_back(json!({"e": "bw"}));
         self.wtx_budget = rng.random_range(1..=self.p.ops_per_txn.max(1));
     }
